@@ -1,0 +1,14 @@
+//go:build verif
+
+package packet
+
+// VerifTrace, when set, is called by a Tracer - with its lock held, so in the order the calls take effect -
+// at Read, Link, Write (accepted tells whether the writer took the packet), Receive, Close, and for every
+// answer the tracer hands to a reader (kind "answer": a is the request, b the answer).
+var VerifTrace func(t *Tracer, kind string, r *Reader, w *Writer, a, b *Packet, accepted bool)
+
+func verifTrace(t *Tracer, kind string, r *Reader, w *Writer, a, b *Packet, accepted bool) {
+	if h := VerifTrace; h != nil {
+		h(t, kind, r, w, a, b, accepted)
+	}
+}
